@@ -122,58 +122,83 @@ theorem pgNormal_mach0 (a b : ℝ) (s : VLM.Surf ℝ) (i j : ℕ) :
 
 theorem deg2rad_zero : deg2rad (0 : ℝ) = 0 := by simp [deg2rad]
 
-/-- the hypotheses of the rotation theorems hold between a flow at zero sideslip without rotation rates and
-the wind-frame flow the compressible group solves in -/
-theorem rotHyp_toWind (surfs : List (VLM.Surf ℝ)) (f : VLM.Flow ℝ) (hb : f.beta = 0) (hr : f.rotational = false)
-    (hg : ∀ s ∈ surfs, s.ground = false) : VLM.RotHyp (toWind (deg2rad f.alpha) 0) surfs f (pgFlow f) := by
+/-- the geometric hypotheses of the rotation theorems hold between a flow and the wind-frame flow the compressible group
+solves in -/
+theorem rotGeo_toWind (surfs : List (VLM.Surf ℝ)) (f : VLM.Flow ℝ) (hg : ∀ s ∈ surfs, s.ground = false) :
+    VLM.RotGeo (toWind (deg2rad f.alpha) 0) surfs f (pgFlow f) := by
   have ha := Real.sin_sq_add_cos_sq (deg2rad f.alpha)
-  refine ⟨hg, fun s _ _ v => toWind_mirror _ v, ?_, ?_, hr, rfl, rfl⟩
-  · ext <;> simp only [VLM.wakeDir, pgFlow, deg2rad_zero, toWind, tw, M3.mulVec, elem_cos, elem_sin,
-      Real.cos_zero, Real.sin_zero]
-    · linear_combination -ha
-    · ring
-    · ring
-  · ext <;> simp only [VLM.freestreamDir, pgFlow, hb, deg2rad_zero, toWind, tw, M3.mulVec, elem_cos, elem_sin,
-      Real.cos_zero, Real.sin_zero]
-    · linear_combination (-f.v) * ha
-    · ring
-    · ring
+  refine ⟨hg, fun s _ _ v => toWind_mirror _ v, ?_⟩
+  ext <;> simp only [VLM.wakeDir, pgFlow, deg2rad_zero, toWind, tw, M3.mulVec, elem_cos, elem_sin,
+    Real.cos_zero, Real.sin_zero]
+  · linear_combination -ha
+  · ring
+  · ring
+
+/-- at zero sideslip the free stream of the wind-frame flow is the rotated free stream -/
+theorem freestream_toWind (f : VLM.Flow ℝ) (hb : f.beta = 0) :
+    VLM.freestreamDir (pgFlow f) = toWind (deg2rad f.alpha) 0 (VLM.freestreamDir f) := by
+  have ha := Real.sin_sq_add_cos_sq (deg2rad f.alpha)
+  ext <;> simp only [VLM.freestreamDir, pgFlow, hb, deg2rad_zero, toWind, tw, M3.mulVec, elem_cos, elem_sin,
+    Real.cos_zero, Real.sin_zero]
+  · linear_combination (-f.v) * ha
+  · ring
+  · ring
+
+/-- **at Mach 0 and zero sideslip the onset velocity of the Prandtl–Glauert-domain solve is the rotated onset velocity** –
+with rotation rates too: `ω × (c − cg)` is computed in the body frame and rotated with everything else -/
+theorem pgOnset_mach0 (f : VLM.Flow ℝ) (hb : f.beta = 0) (c : V3 ℝ) :
+    pgOnset f (deg2rad f.alpha) 0 (betaPG (0 : ℝ)) c = toWind (deg2rad f.alpha) 0 (VLM.onset f c) := by
+  have hR := toWind_isRot (deg2rad f.alpha)
+  rw [c09_beta_mach0]
+  simp only [pgOnset, VLM.onset, freestream_toWind f hb]
+  cases f.rotational
+  · simp only [Bool.false_eq_true, if_false]
+    ext <;> simp
+  · simp only [if_true]
+    rw [hR.add]
+    congr 1
+    simp only [scaleRotVel, mul_one]
 
 /-- **At Mach 0 and zero sideslip the compressible and the incompressible solvers coincide**: for every list of
-surfaces (any sizes, symmetric or not, no ground effect) and every flow without sideslip and rotation rates, the
-Prandtl–Glauert system has the *same* influence matrix and the *same* right-hand side as the incompressible
+surfaces (any sizes, symmetric or not, no ground effect) and every flow without sideslip – *with or without rotation
+rates* – the Prandtl–Glauert system has the *same* influence matrix and the *same* right-hand side as the incompressible
 system – hence the same circulations – and returns the *same* sectional forces for any circulations. -/
 theorem c09_mach0_coincides (surfs : List (VLM.Surf ℝ)) (f : VLM.Flow ℝ) (hb : f.beta = 0)
-    (hr : f.rotational = false) (hg : ∀ s ∈ surfs, s.ground = false) :
+    (hg : ∀ s ∈ surfs, s.ground = false) :
     (∀ m n, PG.aic surfs f 0 m n = VLM.aic surfs f m n) ∧
     (∀ m, PG.rhs surfs f 0 m = VLM.rhs surfs f m) ∧
     (∀ gamma m, PG.secForce surfs f 0 gamma m = VLM.panelForce surfs f gamma m) := by
   have hR := toWind_isRot (deg2rad f.alpha)
-  have H := rotHyp_toWind surfs f hb hr hg
+  have H := rotGeo_toWind surfs f hg
   have hb0 : deg2rad f.beta = 0 := by rw [hb, deg2rad_zero]
   refine ⟨?_, ?_, ?_⟩
   · intro m n
-    rw [← VLM.aic_rot hR surfs f (pgFlow f) H m n]
+    rw [← VLM.aic_rotG hR surfs f (pgFlow f) H m n]
     simp only [PG.aic, VLM.aic, hb0, pgSurf_mach0, pgNormal_mach0]
     rw [VLM.locate_map (VLM.mapSurf _) (fun _ => rfl) (fun _ => rfl)]
     cases VLM.locate surfs m with
     | none => rfl
     | some t => obtain ⟨s, i, j⟩ := t; simp only [Option.map_some, VLM.normal_rot hR]
   · intro m
-    rw [← VLM.rhs_rot hR surfs f (pgFlow f) H m]
-    simp only [PG.rhs, VLM.rhs, hb0, pgSurf_mach0, pgNormal_mach0]
-    rw [VLM.locate_map (VLM.mapSurf _) (fun _ => rfl) (fun _ => rfl)]
+    simp only [PG.rhs, VLM.rhs, hb0, pgNormal_mach0, pgOnset_mach0 f hb]
     cases VLM.locate surfs m with
     | none => rfl
-    | some t => obtain ⟨s, i, j⟩ := t; simp only [Option.map_some, VLM.normal_rot hR]
+    | some t => obtain ⟨s, i, j⟩ := t; simp only [hR.dot]
   · intro gamma m
     simp only [PG.secForce, hb0, pgSurf_mach0, (c09_mach0_identity _).2.2]
-    rw [VLM.panelForce_rot hR surfs f (pgFlow f) H, c09_rot_orthogonal]
+    rw [VLM.panelForce_eq_with surfs f gamma m]
+    have hon : ∀ k, pgOnsetAt surfs f (deg2rad f.alpha) 0 (betaPG 0) k = toWind (deg2rad f.alpha) 0 (VLM.onsetAt surfs f k) := by
+      intro k
+      unfold pgOnsetAt VLM.onsetAt
+      cases VLM.locate surfs k with
+      | none => exact hR.zero.symm
+      | some t => obtain ⟨s, i, j⟩ := t; exact pgOnset_mach0 f hb _
+    rw [VLM.panelForceWith_rot hR surfs f (pgFlow f) H rfl _ _ hon, c09_rot_orthogonal]
 
 /-- non-vacuity: a two-panel non-symmetric surface at 5° incidence satisfies the hypotheses -/
 example : let s : VLM.Surf ℝ := ⟨2, 3, false, false, false, fun i j => ⟨(i : ℝ), (j : ℝ) - 1, 0⟩⟩
-    let f : VLM.Flow ℝ := ⟨5, 0, 10, 1, 0, 0, 0, false⟩
-    f.beta = 0 ∧ f.rotational = false ∧ ∀ t ∈ [s], t.ground = false := by
+    let f : VLM.Flow ℝ := ⟨5, 0, 10, 1, ⟨0, 1, 0⟩, 0, 0, true⟩
+    f.beta = 0 ∧ ∀ t ∈ [s], t.ground = false := by
   simp
 
 end C09
